@@ -313,6 +313,47 @@ func dischargeEach(obls []*Obligation, dir string, timeoutS, seed, workers int) 
 	// phase A2: obligations whose path condition carries several quantified assumptions are first tried with the
 	// quantifier-free facts plus one or two of the quantified assumptions only (dropping assumptions is sound, and the
 	// few relevant invariants usually suffice); queries are generated here, sequentially.
+	// phase A1: ground instantiation (see inst.go): quantifier-free reduced queries
+	var afterGround []job
+	type gjob struct {
+		j    job
+		file string
+	}
+	var gjobs []gjob
+	for _, j := range hard {
+		as, goal, ok := groundQuery(j.o)
+		if !ok || j.o.Kind == "cover" || j.o.Kind == "canary" {
+			afterGround = append(afterGround, j)
+			continue
+		}
+		q := BuildQuery(as, goal, false, nil)
+		f := strings.TrimSuffix(j.file, ".smt2") + ".ground.smt2"
+		os.WriteFile(f, []byte(fmt.Sprintf("; ground-instantiated reduced query for %s\n", j.o.Name)+q), 0o644)
+		gjobs = append(gjobs, gjob{j, f})
+	}
+	for _, g := range gjobs {
+		wg.Add(1)
+		sem <- struct{}{}
+		go func(g gjob) {
+			defer wg.Done()
+			defer func() { <-sem }()
+			r := solveQuery(g.file, 15, seed, false)
+			if r.status == "unsat" {
+				g.j.o.Status = "unsat"
+				g.j.o.Solver = r.solver
+				g.j.o.Time += r.secs
+				g.j.o.Query = g.file
+				g.j.o.Notes = append(g.j.o.Notes, "discharged by ground instantiation of the quantified assumptions")
+				return
+			}
+			g.j.o.Time += r.secs
+			mu.Lock()
+			afterGround = append(afterGround, g.j)
+			mu.Unlock()
+		}(g)
+	}
+	wg.Wait()
+	hard = afterGround
 	type rjob struct {
 		j     job
 		files []string
